@@ -153,8 +153,9 @@ def solve_model(inst, options=None, solver='default'):
     if options is not None:
         kw['options'] = options
     prob.solve(inst.get('format', 'dense'), solver, **kw)
+    # without an optimal point the variables have no value and objective.value() has nothing to evaluate
     return {'status': prob.status, 'x': [v.value for v in vs], 'multipliers': [c.multiplier.value for c in used],
-            'objective': prob.objective.value()}
+            'objective': prob.objective.value() if prob.status == 'optimal' else None}
 
 
 _JUNK = []
